@@ -186,4 +186,12 @@ def main(run_fn, pid):
     except _tlc.TLCError as e:
         print("MACHINERY-FAILURE property=%s: %s" % (pid, e), file=sys.stderr)
         rc = 2
+    except Exception:
+        # an unexpected exception in the harness: report what was found so far; a crash is never a pass
+        import traceback
+        traceback.print_exc()
+        rc = chk.finish() if chk.violations else 2
+        if rc != 1:
+            print("MACHINERY-FAILURE property=%s: unexpected exception in the harness" % pid, file=sys.stderr)
+            rc = 2
     sys.exit(rc)
